@@ -85,17 +85,21 @@ def btInsertCand (k : Nat × Str) (i : Nat) : List ((Nat × Str) × Nat) → Lis
     else if keyLt k k' then (k, i) :: (k', i') :: r
     else (k', i') :: btInsertCand k i r
 
+/-- one rule of the candidate scan: detection and filter rules admitted by their match-on section enter
+    the `BTreeMap` under the key `(severity, name)` -/
+def candStep (e : Engine) (src : Str) (id : Int) (tmp : List ((Nat × Str) × Nat)) (i : Nat) :
+    List ((Nat × Str) × Nat) :=
+  match e.rules[i]? with
+  | some r =>
+    if (CompiledRule.isFilter r || CompiledRule.isDetection r)
+        && canMatchOn r.includeEvents r.excludeEvents src id
+    then btInsertCand (r.severity, r.name) i tmp else tmp
+  | none => tmp
+
 /-- candidates for `(src, id)`: detection and filter rules admitted by match-on, by `(severity,
     name)` descending -/
 def candidates (e : Engine) (src : Str) (id : Int) : List Nat :=
-  let tmp := (List.range e.rules.length).foldl (fun tmp i =>
-    match e.rules[i]? with
-    | some r =>
-      if (CompiledRule.isFilter r || CompiledRule.isDetection r)
-          && canMatchOn r.includeEvents r.excludeEvents src id
-      then btInsertCand (r.severity, r.name) i tmp else tmp
-    | none => tmp) []
-  (tmp.map Prod.snd).reverse
+  (((List.range e.rules.length).foldl (candStep e src id) []).map Prod.snd).reverse
 
 /-- `Engine::cached_rules` -/
 def Engine.cachedRules (e : Engine) (src : Str) (id : Int) : Engine × List Nat :=
@@ -125,28 +129,34 @@ def depLoop (x : Ext) (ev : Event) (e : Engine) : List Nat → ScanAcc → ScanA
         | .ok ok => depLoop x ev e rest { a with states := (r.name, ok) :: a.states }
         | .error err => depLoop x ev e rest { a with lastErr := some (r.name, err) }
 
-/-- one iteration of the candidate loop; `none` = panic -/
+/-- the dependencies of candidate `i` are matched first, through the dependency cache -/
+def depPhase (x : Ext) (ev : Event) (e : Engine) (a : ScanAcc) (i : Nat) (r : CompiledRule) : ScanAcc :=
+  if r.depends.isEmpty then a
+  else match e.depsCache.lookup i with
+    | some deps => depLoop x ev e deps a
+    | none => a      -- `debug_assert!` fails in debug builds only; release skips the dependencies
+
+/-- the candidate's own verdict: from the memo if a dependency loop already computed it -/
+def verdictPhase (x : Ext) (ev : Event) (a1 : ScanAcc) (r : CompiledRule) : Bool × ScanAcc :=
+  match a1.states.lookup r.name with
+  | some ok => (ok, a1)
+  | none =>
+    match ruleEval x ev a1.states r with
+    | .ok ok => (ok, a1)
+    | .error err => (false, { a1 with lastErr := some (r.name, err) })
+
+/-- one iteration of the candidate loop; an error string = panic -/
 def scanStep (x : Ext) (ev : Event) (e : Engine) (a : ScanAcc) (i : Nat) : Except String ScanAcc :=
   match e.rules[i]? with
   | none => .error "engine.rs: self.rules.get(i).unwrap()"
   | some r =>
-    let a1 :=
-      if r.depends.isEmpty then a
-      else match e.depsCache.lookup i with
-        | some deps => depLoop x ev e deps a
-        | none => a      -- `debug_assert!` fails in debug builds only; release skips the dependencies
-    let (ok, a2) :=
-      match a1.states.lookup r.name with
-      | some ok => (ok, a1)
-      | none =>
-        match ruleEval x ev a1.states r with
-        | .ok ok => (ok, a1)
-        | .error err => (false, { a1 with lastErr := some (r.name, err) })
-    if ok then
-      match srUpdate (a2.sr.getD {}) r with
-      | some sr => .ok { a2 with sr := some sr }
+    let a1 := depPhase x ev e a i r
+    let v := verdictPhase x ev a1 r
+    if v.1 then
+      match srUpdate (v.2.sr.getD {}) r with
+      | some sr => .ok { v.2 with sr := some sr }
       | none => .error "engine.rs: self.severity + r.severity overflows u8"
-    else .ok a2
+    else .ok v.2
 
 def scanLoop (x : Ext) (ev : Event) (e : Engine) : List Nat → ScanAcc → Except String ScanAcc
   | [], a => .ok a
